@@ -1,4 +1,821 @@
+/-
+The set trie (`fieldpath.Set`) behaves as a set of paths: closure of the representation invariant and
+refinement of every operation, by induction over the path / the trie, on top of the list-level lemmas
+of `SMD.Proofs.SortedList` and `SMD.Proofs.ChildList`.
+-/
 import SMD.Spec.SetWF
-import SMD.Proofs.Containers
+import SMD.Proofs.PEIface
+import SMD.Proofs.ChildList
 namespace SMD
+open SetTrie SMD.PEOrd
+
+attribute [local grind =] less_eq_lt equals_eq_le
+
+namespace SetTrie
+
+/-! ### unfolding lemmas -/
+
+theorem wf_node {m : List PE} {c : Children} :
+    wf (node m c) = true ↔
+      SortedPE m ∧ SortedKeys c ∧ ∀ p ∈ c, wf p.2 = true ∧ isEmpty p.2 = false := by
+  simp [wf, sortedPEs_iff, wfChildren_iff]
+
+theorem isEmpty_node (m : List PE) (c : Children) :
+    isEmpty (node m c) = (m.isEmpty && c.all (fun p => isEmpty p.2)) := by
+  simp [isEmpty, isEmptyChildren_eq]
+
+theorem paths_node (m : List PE) (c : Children) :
+    paths (node m c) = m.map (fun pe => [pe]) ++ c.flatMap (fun p => (paths p.2).map (fun r => p.1 :: r)) := by
+  simp [paths, pathsChildren_eq]
+
+/-- `has` below an optional child -/
+def hasOpt (r : Path) : Option SetTrie → Bool
+  | some t => has r t
+  | none => false
+
+theorem has_nil (t : SetTrie) : has [] t = false := by simp [has]
+
+theorem has_single (pe : PE) (m : List PE) (c : Children) : has [pe] (node m c) = peHas pe m := by
+  simp [has]
+
+theorem has_cons {r : Path} (hr : r ≠ []) (pe : PE) (m : List PE) (c : Children) :
+    has (pe :: r) (node m c) = hasOpt r (getChild pe c) := by
+  rw [has.eq_3 _ _ _ _ (by simpa using hr)]
+  cases getChild pe c <;> rfl
+
+theorem has_true_ne_nil {q : Path} {t : SetTrie} (h : has q t = true) : q ≠ [] := by
+  rintro rfl; simp [has_nil] at h
+
+theorem wf_empty : wf empty = true := by simp [empty, wf, sortedPEs, wfChildren]
+
+theorem has_empty (q : Path) : has q empty = false := by
+  cases q with
+  | nil => exact has_nil _
+  | cons qe r =>
+    by_cases hr : r = []
+    · subst hr; simp [empty, has_single, peHas]
+    · simp [empty, has_cons hr, getChild, hasOpt]
+
+theorem wf_of_getChild {m : List PE} {c : Children} {q : PE} {t : SetTrie}
+    (h : wf (node m c) = true) (hg : getChild q c = some t) : wf t = true ∧ isEmpty t = false := by
+  obtain ⟨x, hx, _⟩ := mem_of_getChild hg
+  exact (wf_node.1 h).2.2 _ hx
+
+theorem getChild_map (q : PE) (f : SetTrie → SetTrie) (c : Children) :
+    getChild q (c.map (fun p => (p.1, f p.2))) = (getChild q c).map f := by
+  induction c with
+  | nil => rfl
+  | cons p c ih => obtain ⟨x, t⟩ := p; simp only [List.map_cons, getChild, ih]; grind
+
+/-! ### emptiness -/
+
+theorem has_of_isEmpty (q : Path) : ∀ t, isEmpty t = true → has q t = false := by
+  induction q with
+  | nil => intro t _; exact has_nil t
+  | cons qe r ih =>
+    intro t ht
+    obtain ⟨m, c⟩ := t
+    simp only [isEmpty_node, Bool.and_eq_true, List.isEmpty_iff, List.all_eq_true] at ht
+    by_cases hr : r = []
+    · subst hr; simp [has_single, ht.1, peHas]
+    · rw [has_cons hr]
+      cases hg : getChild qe c with
+      | none => rfl
+      | some t' =>
+        obtain ⟨x, hx, _⟩ := mem_of_getChild hg
+        exact ih t' (ht.2 _ hx)
+
+theorem not_isEmpty_of_has {q : Path} {t : SetTrie} (h : has q t = true) : isEmpty t = false := by
+  cases he : isEmpty t
+  · rfl
+  · rw [has_of_isEmpty q t he] at h; cases h
+
+theorem exists_has_of_not_isEmpty : ∀ t, wf t = true → isEmpty t = false → ∃ q, has q t = true := by
+  intro t
+  induction t using SetTrie.ind with
+  | h m c ih =>
+    intro hw he
+    cases m with
+    | cons x xs => exact ⟨[x], by rw [has_single, peHas_head]⟩
+    | nil =>
+      cases c with
+      | nil => simp [isEmpty_node] at he
+      | cons p c =>
+        obtain ⟨x, t⟩ := p
+        have hp := (wf_node.1 hw).2.2 (x, t) (by simp)
+        obtain ⟨r, hr⟩ := ih (x, t) (by simp) hp.1 hp.2
+        refine ⟨x :: r, ?_⟩
+        rw [has_cons (has_true_ne_nil hr), getChild_head]
+        exact hr
+
+theorem isEmpty_eq_false_iff {t : SetTrie} (hw : wf t = true) :
+    isEmpty t = false ↔ ∃ q, has q t = true :=
+  ⟨exists_has_of_not_isEmpty t hw, fun ⟨_, h⟩ => not_isEmpty_of_has h⟩
+
+/-! ### `insert`, `ofPaths` -/
+
+theorem path_equals_refl (p : Path) : Path.equals p p = true := by
+  induction p with
+  | nil => rfl
+  | cons a p ih => simp [Path.equals, ih, PE.equals_refl]
+
+theorem path_equals_nil_right (p : Path) : Path.equals p [] = p.isEmpty := by
+  cases p <;> simp [Path.equals]
+
+theorem path_equals_nil_left (p : Path) : Path.equals [] p = p.isEmpty := by
+  cases p <;> simp [Path.equals]
+
+theorem insert_single (pe : PE) (m : List PE) (c : Children) :
+    insert [pe] (node m c) = node (peInsert pe m) c := by simp [insert]
+
+theorem insert_cons {r : Path} (hr : r ≠ []) (pe : PE) (m : List PE) (c : Children) :
+    insert (pe :: r) (node m c) = node m (descendWith pe (insert r) c) :=
+  insert.eq_3 _ _ _ _ (by simpa using hr)
+
+theorem has_insert (p : Path) : ∀ (q : Path) (s : SetTrie),
+    has q (insert p s) = ((!p.isEmpty && Path.equals p q) || has q s) := by
+  induction p with
+  | nil => intro q s; simp [insert]
+  | cons pe rest ih =>
+    intro q s
+    obtain ⟨m, c⟩ := s
+    cases q with
+    | nil => simp [has_nil, Path.equals]
+    | cons qe r =>
+      simp only [List.isEmpty_cons, Bool.not_false, Bool.true_and, Path.equals]
+      by_cases hrest : rest = []
+      · subst hrest
+        rw [insert_single, path_equals_nil_left]
+        by_cases hr : r = []
+        · subst hr; simp [has_single, peHas_peInsert]
+        · simp [has_cons hr, hr]
+      · rw [insert_cons hrest]
+        by_cases hr : r = []
+        · subst hr; simp [has_single, path_equals_nil_right, hrest]
+        · rw [has_cons hr, has_cons hr, getChild_descendWith]
+          by_cases he : PE.equals pe qe = true
+          · simp only [he, if_true, Bool.true_and, hasOpt, ih]
+            rw [getChild_congr he]
+            have hre : rest.isEmpty = false := by simpa using hrest
+            cases getChild qe c <;> simp [has_empty, hre]
+          · simp [he]
+
+theorem not_isEmpty_insert {p : Path} (hp : p ≠ []) (s : SetTrie) : isEmpty (insert p s) = false := by
+  apply not_isEmpty_of_has (q := p)
+  rw [has_insert]; simp [hp, path_equals_refl]
+
+theorem wf_insert (p : Path) : ∀ s : SetTrie, wf s = true → wf (insert p s) = true := by
+  induction p with
+  | nil => intro s h; simpa [insert] using h
+  | cons pe rest ih =>
+    intro s hs
+    obtain ⟨m, c⟩ := s
+    by_cases hrest : rest = []
+    · subst hrest
+      rw [insert_single]
+      rw [wf_node] at hs ⊢
+      exact ⟨sorted_peInsert pe hs.1, hs.2⟩
+    · rw [insert_cons hrest]
+      rw [wf_node] at hs ⊢
+      refine ⟨hs.1, sorted_descendWith pe _ hs.2.1, ?_⟩
+      intro p hp
+      rcases mem_descendWith hp with h | h | ⟨x, t, h, h'⟩
+      · exact hs.2.2 p h
+      · subst h; exact ⟨ih _ wf_empty, not_isEmpty_insert hrest _⟩
+      · subst h'; exact ⟨ih _ (hs.2.2 _ h).1, not_isEmpty_insert hrest _⟩
+
+theorem wf_foldl_insert (ps : List Path) : ∀ s : SetTrie, wf s = true →
+    wf (ps.foldl (fun s p => insert p s) s) = true := by
+  induction ps with
+  | nil => intro s h; exact h
+  | cons p ps ih => intro s h; exact ih _ (wf_insert p s h)
+
+theorem wf_ofPaths (ps : List Path) : wf (ofPaths ps) = true := wf_foldl_insert ps _ wf_empty
+
+theorem has_foldl_insert (q : Path) (ps : List Path) : ∀ s : SetTrie,
+    has q (ps.foldl (fun s p => insert p s) s) =
+      (ps.any (fun p => !p.isEmpty && Path.equals p q) || has q s) := by
+  induction ps with
+  | nil => intro s; simp
+  | cons p ps ih =>
+    intro s
+    rw [List.foldl_cons, ih, has_insert, List.any_cons]
+    cases (!p.isEmpty && Path.equals p q) <;> simp
+
+theorem has_ofPaths (ps : List Path) (q : Path) :
+    has q (ofPaths ps) = ps.any (fun p => !p.isEmpty && Path.equals p q) := by
+  rw [ofPaths, has_foldl_insert, has_empty, Bool.or_false]
+
+/-! ### `union` -/
+
+theorem has_union (q : Path) : ∀ a b : SetTrie, wf a = true → wf b = true →
+    has q (union a b) = (has q a || has q b) := by
+  induction q with
+  | nil => intro a b _ _; simp [has_nil]
+  | cons qe r ih =>
+    intro a b ha hb
+    obtain ⟨m1, c1⟩ := a
+    obtain ⟨m2, c2⟩ := b
+    rw [union]
+    by_cases hr : r = []
+    · subst hr; simp [has_single, peHas_peUnion]
+    · rw [has_cons hr, has_cons hr, has_cons hr, getChild_unionChildren]
+      cases h1 : getChild qe c1 <;> cases h2 : getChild qe c2 <;> simp [unionOpt, hasOpt]
+      exact ih _ _ (wf_of_getChild ha h1).1 (wf_of_getChild hb h2).1
+
+theorem wf_union : ∀ a b : SetTrie, wf a = true → wf b = true → wf (union a b) = true := by
+  intro a
+  induction a using SetTrie.ind with
+  | h m1 c1 ih =>
+    intro b ha hb
+    obtain ⟨m2, c2⟩ := b
+    rw [union]
+    rw [wf_node] at ha hb ⊢
+    refine ⟨sorted_peUnion ha.1 hb.1, sorted_unionChildren ha.2.1 hb.2.1, ?_⟩
+    intro p hp
+    rcases mem_unionChildren hp with h | h | ⟨x, s, y, t, h1, h2, rfl⟩
+    · exact ha.2.2 p h
+    · exact hb.2.2 p h
+    · have ws := ha.2.2 _ h1
+      have wt := hb.2.2 _ h2
+      refine ⟨ih _ h1 t ws.1 wt.1, ?_⟩
+      obtain ⟨q, hq⟩ := exists_has_of_not_isEmpty s ws.1 ws.2
+      apply not_isEmpty_of_has (q := q)
+      simp [has_union q s t ws.1 wt.1, hq]
+
+/-! ### `inter` -/
+
+theorem has_inter (q : Path) : ∀ a b : SetTrie, wf a = true → wf b = true →
+    has q (inter a b) = (has q a && has q b) := by
+  induction q with
+  | nil => intro a b _ _; simp [has_nil]
+  | cons qe r ih =>
+    intro a b ha hb
+    obtain ⟨m1, c1⟩ := a
+    obtain ⟨m2, c2⟩ := b
+    rw [inter]
+    by_cases hr : r = []
+    · subst hr; simp [has_single, peHas_peInter]
+    · rw [has_cons hr, has_cons hr, has_cons hr,
+        getChild_interChildren qe (wf_node.1 ha).2.1 (wf_node.1 hb).2.1]
+      cases h1 : getChild qe c1 <;> cases h2 : getChild qe c2 <;> simp [interOpt, hasOpt]
+      rename_i s t
+      have e := ih s t (wf_of_getChild ha h1).1 (wf_of_getChild hb h2).1
+      by_cases he : isEmpty (inter s t) = true
+      · rw [has_of_isEmpty r _ he] at e; simp [he, ← e]
+      · simp [he, e]
+
+theorem wf_inter : ∀ a b : SetTrie, wf a = true → wf b = true → wf (inter a b) = true := by
+  intro a
+  induction a using SetTrie.ind with
+  | h m1 c1 ih =>
+    intro b ha hb
+    obtain ⟨m2, c2⟩ := b
+    rw [inter]
+    rw [wf_node] at ha hb ⊢
+    refine ⟨sorted_peInter _ ha.1, sorted_interChildren _ ha.2.1, ?_⟩
+    intro p hp
+    obtain ⟨s, y, t, h1, h2, h3, h4⟩ := mem_interChildren hp
+    refine ⟨?_, h4⟩
+    rw [h3]
+    exact ih _ h1 t (ha.2.2 _ h1).1 (hb.2.2 _ h2).1
+
+/-! ### `diff` -/
+
+theorem has_diff (q : Path) : ∀ a b : SetTrie, wf a = true → wf b = true →
+    has q (diff a b) = (has q a && !has q b) := by
+  induction q with
+  | nil => intro a b _ _; simp [has_nil]
+  | cons qe r ih =>
+    intro a b ha hb
+    obtain ⟨m1, c1⟩ := a
+    obtain ⟨m2, c2⟩ := b
+    rw [diff]
+    by_cases hr : r = []
+    · subst hr; simp [has_single, peHas_peDiff _ _ (wf_node.1 ha).1]
+    · rw [has_cons hr, has_cons hr, has_cons hr, getChild_diffChildren qe _ (wf_node.1 ha).2.1]
+      cases h1 : getChild qe c1 <;> cases h2 : getChild qe c2 <;> simp [diffOpt, hasOpt]
+      rename_i s t
+      have e := ih s t (wf_of_getChild ha h1).1 (wf_of_getChild hb h2).1
+      by_cases he : isEmpty (diff s t) = true
+      · rw [has_of_isEmpty r _ he] at e; simp [he, ← e]
+      · simp [he, e]
+
+theorem wf_diff : ∀ a b : SetTrie, wf a = true → wf b = true → wf (diff a b) = true := by
+  intro a
+  induction a using SetTrie.ind with
+  | h m1 c1 ih =>
+    intro b ha hb
+    obtain ⟨m2, c2⟩ := b
+    rw [diff]
+    rw [wf_node] at ha hb ⊢
+    refine ⟨sorted_peDiff _ ha.1, sorted_diffChildren _ ha.2.1, ?_⟩
+    intro p hp
+    rcases mem_diffChildren hp with h | ⟨s, y, t, h1, h2, h3, h4⟩
+    · exact ha.2.2 p h
+    · refine ⟨?_, h4⟩
+      rw [h3]
+      exact ih _ h1 t (ha.2.2 _ h1).1 (hb.2.2 _ h2).1
+
+/-! ### `rdiff` -/
+
+/-- all non-empty prefixes of a path (same definition as `SMD.C15.prefixes`) -/
+def prefixesOf : Path → List Path
+  | [] => []
+  | pe :: rest => [pe] :: (prefixesOf rest).map (fun p => pe :: p)
+
+theorem prefixesOf_ne_nil (q : Path) : ∀ r ∈ prefixesOf q, r ≠ [] := by
+  cases q with
+  | nil => simp [prefixesOf]
+  | cons pe rest => simp [prefixesOf]
+
+theorem any_has_cons (qe : PE) (m : List PE) (c : Children) (l : List Path) (hl : ∀ r ∈ l, r ≠ []) :
+    l.any (fun r => has (qe :: r) (node m c)) = (getChild qe c).any (fun t => l.any (fun r => has r t)) := by
+  induction l with
+  | nil => cases getChild qe c <;> simp
+  | cons r l ih =>
+    have hr : r ≠ [] := hl r (by simp)
+    rw [List.any_cons, ih (fun r' h => hl r' (by simp [h])), has_cons hr]
+    cases getChild qe c <;> simp [hasOpt]
+
+theorem has_rdiff (q : Path) : ∀ a b : SetTrie, wf a = true → wf b = true →
+    has q (rdiff a b) = (has q a && !(prefixesOf q).any (fun r => has r b)) := by
+  induction q with
+  | nil => intro a b _ _; simp [has_nil]
+  | cons qe r ih =>
+    intro a b ha hb
+    obtain ⟨m1, c1⟩ := a
+    obtain ⟨m2, c2⟩ := b
+    rw [rdiff]
+    by_cases hr : r = []
+    · subst hr; simp [prefixesOf, has_single, peHas_peDiff _ _ (wf_node.1 ha).1]
+    · rw [has_cons hr, has_cons hr, getChild_rdiffChildren qe _ _ (wf_node.1 ha).2.1]
+      simp only [prefixesOf, List.any_cons, List.any_map, Function.comp_def, has_single]
+      rw [any_has_cons qe m2 c2 _ (prefixesOf_ne_nil r)]
+      cases hm : peHas qe m2
+      · cases h1 : getChild qe c1 <;> cases h2 : getChild qe c2 <;> simp [rdiffOpt, hasOpt]
+        rename_i s t
+        have e := ih s t (wf_of_getChild ha h1).1 (wf_of_getChild hb h2).1
+        by_cases he : isEmpty (rdiff s t) = true
+        · rw [has_of_isEmpty r _ he] at e
+          simp only [he, if_true]
+          simpa using e.symm
+        · simpa [he] using e
+      · simp [hasOpt]
+
+theorem wf_rdiff : ∀ a b : SetTrie, wf a = true → wf b = true → wf (rdiff a b) = true := by
+  intro a
+  induction a using SetTrie.ind with
+  | h m1 c1 ih =>
+    intro b ha hb
+    obtain ⟨m2, c2⟩ := b
+    rw [rdiff]
+    rw [wf_node] at ha hb ⊢
+    refine ⟨sorted_peDiff _ ha.1, sorted_rdiffChildren _ _ ha.2.1, ?_⟩
+    intro p hp
+    rcases mem_rdiffChildren hp with h | ⟨s, y, t, h1, h2, h3, h4⟩
+    · exact ha.2.2 p h
+    · refine ⟨?_, h4⟩
+      rw [h3]
+      exact ih _ h1 t (ha.2.2 _ h1).1 (hb.2.2 _ h2).1
+
+/-! ### `paths`: shape -/
+
+theorem paths_ne_nil : ∀ t : SetTrie, ∀ r ∈ paths t, r ≠ [] := by
+  intro t
+  cases t with
+  | node m c =>
+    intro r hr
+    rw [paths_node] at hr
+    simp only [List.mem_append, List.mem_map, List.mem_flatMap] at hr
+    rcases hr with ⟨x, _, rfl⟩ | ⟨p, _, r', _, rfl⟩ <;> simp
+
+theorem isEmpty_iff_paths : ∀ t : SetTrie, isEmpty t = true ↔ paths t = [] := by
+  intro t
+  induction t using SetTrie.ind with
+  | h m c ih =>
+    rw [isEmpty_node, paths_node]
+    simp only [Bool.and_eq_true, List.isEmpty_iff, List.all_eq_true, List.append_eq_nil_iff,
+      List.map_eq_nil_iff, List.flatMap_eq_nil_iff]
+    constructor
+    · rintro ⟨h1, h2⟩; exact ⟨h1, fun p hp => (ih p hp).1 (h2 p hp)⟩
+    · rintro ⟨h1, h2⟩; exact ⟨h1, fun p hp => (ih p hp).2 (h2 p hp)⟩
+
+/-! ### `leaves` -/
+
+/-- `q` is a proper prefix of `r`, element-wise up to `Equals` (same definition as
+`SMD.C15.properPrefix`) -/
+def isProperPrefix : Path → Path → Bool
+  | [], _ :: _ => true
+  | a :: as, b :: bs => PE.equals a b && isProperPrefix as bs
+  | _, _ => false
+
+theorem isProperPrefix_nil_right (q : Path) : isProperPrefix q [] = false := by
+  cases q <;> simp [isProperPrefix]
+
+theorem isProperPrefix_nil_left (r : Path) : isProperPrefix [] r = !r.isEmpty := by
+  cases r <;> simp [isProperPrefix]
+
+/-- looking a key up in a sorted child list, as an `any` over the list -/
+theorem any_key_eq (qe : PE) (g : SetTrie → Bool) {c : Children} (hc : SortedKeys c) :
+    c.any (fun p => PE.equals qe p.1 && g p.2) = (getChild qe c).any g := by
+  induction c with
+  | nil => simp [getChild]
+  | cons p c ih =>
+    obtain ⟨x, t⟩ := p
+    have hc' := sortedKeys_cons.1 hc
+    have e1 := @getChild_eq_none_of_lt qe c
+    rw [List.any_cons, ih hc'.2]
+    simp only [getChild]
+    by_cases h1 : PE.less x qe = true
+    · have : PE.equals qe x = false := by grind
+      simp [h1, this]
+    · by_cases h2 : PE.equals x qe = true
+      · have : PE.equals qe x = true := by grind
+        have : getChild qe c = none := by grind
+        simp [*]
+      · have : PE.equals qe x = false := by grind
+        have : getChild qe c = none := by grind
+        simp [*]
+
+theorem any_isProperPrefix_node (qe : PE) (r : Path) (m : List PE) {c : Children} (hc : SortedKeys c) :
+    (paths (node m c)).any (isProperPrefix (qe :: r)) =
+      (getChild qe c).any (fun t => (paths t).any (isProperPrefix r)) := by
+  rw [paths_node, List.any_append, List.any_map, List.any_flatMap, ← any_key_eq qe _ hc]
+  simp only [Function.comp_def, isProperPrefix, isProperPrefix_nil_right, List.any_map, Bool.and_false]
+  have hm : (m.any fun _ => false) = false := by induction m <;> simp_all
+  rw [hm, Bool.false_or]
+  congr 1
+  funext p
+  induction paths p.2 with
+  | nil => simp
+  | cons x l ih => rw [List.any_cons, List.any_cons, ih]; cases PE.equals qe p.1 <;> simp
+
+theorem not_isEmpty_leaves : ∀ t : SetTrie, wf t = true → isEmpty t = false →
+    isEmpty (leaves t) = false := by
+  intro t
+  induction t using SetTrie.ind with
+  | h m c ih =>
+    intro hw he
+    rw [leaves, leavesChildren_eq, isEmpty_node]
+    cases c with
+    | nil =>
+      rw [leafMembers_nil_right]
+      simpa [isEmpty_node] using he
+    | cons p c =>
+      have hp := (wf_node.1 hw).2.2 p (by simp)
+      have := ih p (by simp) hp.1 hp.2
+      simp [this]
+
+theorem wf_leaves : ∀ t : SetTrie, wf t = true → wf (leaves t) = true := by
+  intro t
+  induction t using SetTrie.ind with
+  | h m c ih =>
+    intro hw
+    rw [leaves, leavesChildren_eq]
+    rw [wf_node] at hw ⊢
+    refine ⟨sorted_leafMembers _ hw.1, ?_, ?_⟩
+    · simpa [SortedKeys, List.pairwise_map] using hw.2.1
+    · intro p hp
+      obtain ⟨p', hp', rfl⟩ := List.mem_map.1 hp
+      exact ⟨ih p' hp' (hw.2.2 _ hp').1, not_isEmpty_leaves _ (hw.2.2 _ hp').1 (hw.2.2 _ hp').2⟩
+
+theorem has_leaves (q : Path) : ∀ a : SetTrie, wf a = true →
+    has q (leaves a) = (has q a && !(paths a).any (isProperPrefix q)) := by
+  induction q with
+  | nil => intro a _; simp [has_nil]
+  | cons qe r ih =>
+    intro a ha
+    obtain ⟨m, c⟩ := a
+    have hw := wf_node.1 ha
+    rw [any_isProperPrefix_node qe r m hw.2.1, leaves, leavesChildren_eq]
+    by_cases hr : r = []
+    · subst hr
+      rw [has_single, has_single, peHas_leafMembers qe c hw.1]
+      cases hg : getChild qe c with
+      | none => simp
+      | some t =>
+        have ht := wf_of_getChild ha hg
+        have hne : paths t ≠ [] := by
+          intro h; rw [← isEmpty_iff_paths, ht.2] at h; cases h
+        obtain ⟨r', hr'⟩ := List.exists_mem_of_ne_nil _ hne
+        have : (paths t).any (isProperPrefix []) = true := by
+          rw [List.any_eq_true]
+          refine ⟨r', hr', ?_⟩
+          rw [isProperPrefix_nil_left]
+          simpa using paths_ne_nil t r' hr'
+        simp [this]
+    · rw [has_cons hr, has_cons hr, getChild_map]
+      cases hg : getChild qe c with
+      | none => simp [hasOpt]
+      | some t => simpa [hasOpt] using ih t (wf_of_getChild ha hg).1
+
+/-! ### `withPrefix` -/
+
+theorem wf_withPrefix (pe : PE) (a : SetTrie) (ha : wf a = true) : wf (withPrefix pe a) = true := by
+  obtain ⟨m, c⟩ := a
+  simp only [withPrefix, children]
+  cases hg : getChild pe c with
+  | none => exact wf_empty
+  | some t => exact (wf_of_getChild ha hg).1
+
+theorem has_withPrefix (pe : PE) (a : SetTrie) {q : Path} (hq : q ≠ []) :
+    has q (withPrefix pe a) = has (pe :: q) a := by
+  obtain ⟨m, c⟩ := a
+  rw [has_cons hq]
+  simp only [withPrefix, children]
+  cases hg : getChild pe c <;> simp [hasOpt, has_empty]
+
+/-! ### observations: `size`, `paths` -/
+
+theorem size_eq_length_paths : ∀ t : SetTrie, size t = (paths t).length := by
+  intro t
+  induction t using SetTrie.ind with
+  | h m c ih =>
+    rw [paths_node, size, sizeChildren_eq, List.length_append, List.length_map, List.length_flatMap]
+    congr 2
+    apply List.map_congr_left
+    intro p hp
+    simp [ih p hp]
+
+theorem has_iff_mem_paths (q : Path) : ∀ a : SetTrie, wf a = true →
+    (has q a = true ↔ ∃ p, p ∈ paths a ∧ Path.equals p q = true) := by
+  induction q with
+  | nil =>
+    intro a _
+    simp only [has_nil, Bool.false_eq_true, false_iff, not_exists, not_and]
+    intro p hp
+    rw [path_equals_nil_right]
+    simpa using paths_ne_nil a p hp
+  | cons qe r ih =>
+    intro a ha
+    obtain ⟨m, c⟩ := a
+    have hw := wf_node.1 ha
+    rw [paths_node]
+    by_cases hr : r = []
+    · subst hr
+      rw [has_single, peHas_iff_exists hw.1]
+      constructor
+      · rintro ⟨x, hx, he⟩
+        exact ⟨[x], by simp [hx], by simp [Path.equals, he]⟩
+      · rintro ⟨p, hp, he⟩
+        simp only [List.mem_append, List.mem_map, List.mem_flatMap] at hp
+        rcases hp with ⟨x, hx, rfl⟩ | ⟨p', hp', r', hr', rfl⟩
+        · exact ⟨x, hx, by simpa [Path.equals] using he⟩
+        · have := paths_ne_nil _ _ hr'
+          simp [Path.equals, path_equals_nil_right, this] at he
+    · rw [has_cons hr]
+      constructor
+      · intro h
+        cases hg : getChild qe c with
+        | none => simp [hg, hasOpt] at h
+        | some t =>
+          rw [hg] at h
+          obtain ⟨x, hx, he⟩ := mem_of_getChild hg
+          obtain ⟨p', hp', he'⟩ := (ih t (wf_of_getChild ha hg).1).1 h
+          refine ⟨x :: p', ?_, by simp [Path.equals, he, he']⟩
+          simp only [List.mem_append, List.mem_flatMap, List.mem_map]
+          exact .inr ⟨(x, t), hx, p', hp', rfl⟩
+      · rintro ⟨p, hp, he⟩
+        simp only [List.mem_append, List.mem_map, List.mem_flatMap] at hp
+        rcases hp with ⟨x, hx, rfl⟩ | ⟨p', hp', r', hr', rfl⟩
+        · simp [Path.equals, path_equals_nil_left, hr] at he
+        · obtain ⟨k, t⟩ := p'
+          simp only [Path.equals, Bool.and_eq_true] at he
+          rw [getChild_of_mem hw.2.1 hp' he.1]
+          exact (ih t (hw.2.2 _ hp').1).2 ⟨r', hr', he.2⟩
+
+/-- the fixed total order in which `Iterate` visits paths (same definition as `SMD.C15.iterCmp`) -/
+def iterOrd : Path → Path → Ordering
+  | [], [] => .eq
+  | [], _ :: _ => .lt
+  | _ :: _, [] => .gt
+  | [a], [b] => PE.compare a b
+  | [_], _ :: _ :: _ => .lt
+  | _ :: _ :: _, [_] => .gt
+  | a :: a' :: as, b :: b' :: bs =>
+    match PE.compare a b with
+    | .eq => iterOrd (a' :: as) (b' :: bs)
+    | c => c
+
+theorem iterOrd_cons_cons {p q : Path} (hp : p ≠ []) (hq : q ≠ []) (a b : PE) :
+    iterOrd (a :: p) (b :: q) = match PE.compare a b with | .eq => iterOrd p q | c => c := by
+  cases p with
+  | nil => exact absurd rfl hp
+  | cons a' as =>
+    cases q with
+    | nil => exact absurd rfl hq
+    | cons b' bs => simp [iterOrd]
+
+theorem iterOrd_single_long {q : Path} (hq : q ≠ []) (a b : PE) : iterOrd [a] (b :: q) = .lt := by
+  cases q with
+  | nil => exact absurd rfl hq
+  | cons b' bs => simp [iterOrd]
+
+theorem iterOrd_eq_of_equals (p q : Path) (h : Path.equals p q = true) : iterOrd p q = .eq := by
+  fun_induction iterOrd p q with
+  | case1 => rfl
+  | case2 => simp [Path.equals] at h
+  | case3 => simp [Path.equals] at h
+  | case4 a b => simp only [Path.equals, Bool.and_true] at h; exact (PE.compare_eq_iff a b).2 h
+  | case5 => simp [Path.equals] at h
+  | case6 => simp [Path.equals] at h
+  | case7 a a' as b b' bs hc ih =>
+    simp only [Path.equals, Bool.and_eq_true] at h
+    exact ih (by simp [Path.equals, h.2])
+  | case8 a a' as b b' bs hc =>
+    simp only [Path.equals, Bool.and_eq_true] at h
+    exact absurd ((PE.compare_eq_iff a b).2 h.1) (by simpa using hc)
+
+theorem paths_strictly_ascending : ∀ a : SetTrie, wf a = true →
+    (paths a).Pairwise (fun p q => iterOrd p q = .lt) := by
+  intro a
+  induction a using SetTrie.ind with
+  | h m c ih =>
+    intro ha
+    have hw := wf_node.1 ha
+    rw [paths_node, List.pairwise_append]
+    refine ⟨?_, ?_, ?_⟩
+    · rw [List.pairwise_map]
+      refine hw.1.imp ?_
+      intro a b hab
+      simpa [iterOrd] using (PE.compare_lt_iff a b).2 hab
+    · rw [List.pairwise_flatMap]
+      refine ⟨?_, ?_⟩
+      · intro p hp
+        rw [List.pairwise_map]
+        refine (ih p hp (hw.2.2 p hp).1).imp_of_mem ?_
+        intro a b ha hb hab
+        rw [iterOrd_cons_cons (paths_ne_nil _ _ ha) (paths_ne_nil _ _ hb),
+          (PE.compare_eq_iff _ _).2 (PE.equals_refl p.1)]
+        exact hab
+      · refine hw.2.1.imp ?_
+        intro p1 p2 h12 x hx y hy
+        obtain ⟨a, ha, rfl⟩ := List.mem_map.1 hx
+        obtain ⟨b, hb, rfl⟩ := List.mem_map.1 hy
+        rw [iterOrd_cons_cons (paths_ne_nil _ _ ha) (paths_ne_nil _ _ hb),
+          (PE.compare_lt_iff _ _).2 h12]
+    · intro x hx y hy
+      obtain ⟨a, _, rfl⟩ := List.mem_map.1 hx
+      obtain ⟨p, _, hy⟩ := List.mem_flatMap.1 hy
+      obtain ⟨b, hb, rfl⟩ := List.mem_map.1 hy
+      exact iterOrd_single_long (paths_ne_nil _ _ hb) _ _
+
+theorem paths_no_repeats (a : SetTrie) (ha : wf a = true) :
+    (paths a).Pairwise (fun p q => Path.equals p q = false) := by
+  refine (paths_strictly_ascending a ha).imp ?_
+  intro p q h
+  cases he : Path.equals p q
+  · rfl
+  · rw [iterOrd_eq_of_equals p q he] at h; cases h
+
+/-! ### `equals` is extensional -/
+
+theorem getChild_of_equalsChildren (q : PE) : ∀ c1 c2 : Children, equalsChildren c1 c2 = true →
+    (getChild q c1 = none ∧ getChild q c2 = none) ∨
+      ∃ s t, getChild q c1 = some s ∧ getChild q c2 = some t ∧ equals s t = true := by
+  intro c1
+  induction c1 with
+  | nil => intro c2 h; cases c2 <;> simp_all [equalsChildren, getChild]
+  | cons p c1 ih =>
+    intro c2 h
+    obtain ⟨x, s⟩ := p
+    cases c2 with
+    | nil => simp [equalsChildren] at h
+    | cons p' c2 =>
+      obtain ⟨y, t⟩ := p'
+      simp only [equalsChildren, Bool.and_eq_true] at h
+      have ih' := ih c2 h.2
+      simp only [getChild]
+      have hxy := h.1.1
+      by_cases h1 : PE.less x q = true
+      · have : PE.less y q = true := by grind
+        simpa [*] using ih'
+      · have : ¬ PE.less y q = true := by grind
+        by_cases h2 : PE.equals x q = true
+        · have : PE.equals y q = true := by grind
+          simp [*]
+        · have : ¬ PE.equals y q = true := by grind
+          simp [*]
+
+theorem has_eq_of_equals (q : Path) : ∀ a b : SetTrie, equals a b = true → has q a = has q b := by
+  induction q with
+  | nil => intro a b _; simp [has_nil]
+  | cons qe r ih =>
+    intro a b h
+    obtain ⟨m1, c1⟩ := a
+    obtain ⟨m2, c2⟩ := b
+    simp only [equals, Bool.and_eq_true] at h
+    by_cases hr : r = []
+    · subst hr; rw [has_single, has_single]; exact peHas_eq_of_peEquals h.1 qe
+    · rw [has_cons hr, has_cons hr]
+      rcases getChild_of_equalsChildren qe c1 c2 h.2 with ⟨h1, h2⟩ | ⟨s, t, h1, h2, h3⟩
+      · rw [h1, h2]
+      · rw [h1, h2]; exact ih s t h3
+
+theorem getChild_cons_le {q y : PE} {t : SetTrie} {ys : Children}
+    (h : getChild q ((y, t) :: ys) ≠ none) : PE.less q y = false := by
+  cases hq : PE.less q y
+  · rfl
+  · exfalso; apply h; simp only [getChild]; grind
+
+theorem equalsChildren_of_has_eq : ∀ c1 c2 : Children,
+    (SortedKeys c1 ∧ ∀ p ∈ c1, wf p.2 = true ∧ isEmpty p.2 = false) →
+    (SortedKeys c2 ∧ ∀ p ∈ c2, wf p.2 = true ∧ isEmpty p.2 = false) →
+    (∀ p ∈ c1, ∀ b : SetTrie, wf p.2 = true → wf b = true → (∀ q, has q p.2 = has q b) →
+      equals p.2 b = true) →
+    (∀ qe r, r ≠ [] → hasOpt r (getChild qe c1) = hasOpt r (getChild qe c2)) →
+    equalsChildren c1 c2 = true := by
+  intro c1
+  induction c1 with
+  | nil =>
+    intro c2 _ h2 _ H
+    cases c2 with
+    | nil => rfl
+    | cons p c2 =>
+      obtain ⟨y, t⟩ := p
+      have wt := h2.2 (y, t) (by simp)
+      obtain ⟨r, hr⟩ := exists_has_of_not_isEmpty t wt.1 wt.2
+      have := H y r (has_true_ne_nil hr)
+      rw [getChild_head] at this
+      simp [getChild, hasOpt, hr] at this
+  | cons p c1 ihl =>
+    intro c2 h1 h2 ih H
+    obtain ⟨x, s⟩ := p
+    have ws := h1.2 (x, s) (by simp)
+    obtain ⟨rs, hrs⟩ := exists_has_of_not_isEmpty s ws.1 ws.2
+    cases c2 with
+    | nil =>
+      have := H x rs (has_true_ne_nil hrs)
+      rw [getChild_head] at this
+      simp [getChild, hasOpt, hrs] at this
+    | cons p' c2 =>
+      obtain ⟨y, t⟩ := p'
+      have wt := h2.2 (y, t) (by simp)
+      obtain ⟨rt, hrt⟩ := exists_has_of_not_isEmpty t wt.1 wt.2
+      have hs1 := sortedKeys_cons.1 h1.1
+      have hs2 := sortedKeys_cons.1 h2.1
+      -- the two head keys are equivalent
+      have hxy : PE.equals x y = true := by
+        have e1 := H x rs (has_true_ne_nil hrs)
+        rw [getChild_head] at e1
+        have n1 : getChild x ((y, t) :: c2) ≠ none := by
+          intro hn; rw [hn] at e1; simp [hasOpt, hrs] at e1
+        have e2 := H y rt (has_true_ne_nil hrt)
+        rw [getChild_head] at e2
+        have n2 : getChild y ((x, s) :: c1) ≠ none := by
+          intro hn; rw [hn] at e2; simp [hasOpt, hrt] at e2
+        exact PE.equals_of_not_less (getChild_cons_le n1) (getChild_cons_le n2)
+      have hst : equals s t = true := by
+        apply ih (x, s) (by simp) t ws.1 wt.1
+        intro q
+        by_cases hq : q = []
+        · subst hq; simp [has_nil]
+        · have := H x q hq
+          rw [getChild_head, getChild_congr hxy, getChild_head] at this
+          exact this
+      have htl : equalsChildren c1 c2 = true := by
+        apply ihl c2 ⟨hs1.2, fun p hp => h1.2 p (by simp [hp])⟩
+          ⟨hs2.2, fun p hp => h2.2 p (by simp [hp])⟩
+          (fun p hp => ih p (by simp [hp]))
+        intro qe r hr
+        have := H qe r hr
+        simp only [getChild] at this
+        by_cases hlt : PE.less x qe = true
+        · have : PE.less y qe = true := by grind
+          simp_all
+        · rw [getChild_eq_none_of_lt, getChild_eq_none_of_lt]
+          · intro p hp; have := hs2.1 p hp; grind
+          · intro p hp; have := hs1.1 p hp; grind
+      simp [equalsChildren, hxy, hst, htl]
+
+theorem equals_of_has_eq : ∀ a b : SetTrie, wf a = true → wf b = true →
+    (∀ q, has q a = has q b) → equals a b = true := by
+  intro a
+  induction a using SetTrie.ind with
+  | h m1 c1 ih =>
+    intro b ha hb H
+    obtain ⟨m2, c2⟩ := b
+    have hwa := wf_node.1 ha
+    have hwb := wf_node.1 hb
+    simp only [equals, Bool.and_eq_true]
+    constructor
+    · apply peEquals_of_peHas_eq hwa.1 hwb.1
+      intro q
+      simpa [has_single] using H [q]
+    · apply equalsChildren_of_has_eq c1 c2 hwa.2 hwb.2 ih
+      intro qe r hr
+      simpa [has_cons hr] using H (qe :: r)
+
+theorem equals_iff_same_members (a b : SetTrie) (ha : wf a = true) (hb : wf b = true) :
+    equals a b = true ↔ ∀ q, has q a = has q b :=
+  ⟨fun h q => has_eq_of_equals q a b h, equals_of_has_eq a b ha hb⟩
+
+theorem equals_of_perm {ps qs : List Path} (h : ps.Perm qs) : equals (ofPaths ps) (ofPaths qs) = true := by
+  rw [equals_iff_same_members _ _ (wf_ofPaths ps) (wf_ofPaths qs)]
+  intro q
+  rw [has_ofPaths, has_ofPaths]
+  exact h.any_eq
+
+end SetTrie
 end SMD
